@@ -178,7 +178,7 @@ def gen_file_session(rng, rel, max_tr=40, nrandom=15, mk=True):
                 yield from mk_events(rng, T + 86400 * 30 + 43200, offs, impls, findn=True)      # an ordinary time: fewer results in the same buffer
 
 
-POSIX_STRINGS = ["<+0030>-0:30", "XXX-0:44:30", "<-0030>0:30", "AAA-0:30BBB-1:30,M3.2.0/0:30,M10.5.0/0:00:30", "EST5EDT,M3.2.0,M11.1.0", "CET-1CEST,M3.5.0,M10.5.0/3", "AEST-10AEDT,M10.1.0,M4.1.0/3", "NZST-12NZDT,M9.5.0,M4.1.0/3", "UTC0", "<-03>3", "<+0530>-5:30",
+POSIX_STRINGS = ["AAA-3BBB,0/0,J300", "AAA3BBB2,J100/2,J100/3", "STD0DST-1,M4.2.0/2,M4.2.0/3", "<+0030>-0:30", "XXX-0:44:30", "<-0030>0:30", "AAA-0:30BBB-1:30,M3.2.0/0:30,M10.5.0/0:00:30", "EST5EDT,M3.2.0,M11.1.0", "CET-1CEST,M3.5.0,M10.5.0/3", "AEST-10AEDT,M10.1.0,M4.1.0/3", "NZST-12NZDT,M9.5.0,M4.1.0/3", "UTC0", "<-03>3", "<+0530>-5:30",
                  "IST-1GMT0,M10.5.0,M3.5.0/1", "EST5EDT,J60,J300", "EST5EDT,59,299/0", "PST8PDT,M3.2.0/2:30,M11.1.0/1:15:30", "HST10", "WART4WARST,J1/0,J365/24"]
 
 
@@ -192,6 +192,16 @@ def gen_string_session(rng, s):
         g = glibc_obs(t)
         if g is not None:
             yield {"op": "ref", "a": {"impl": "glibc", "scale": "utc", "t": W(t), "obs": g}}
+    # every whole hour within 26 h of one New Year (a start or end written for 1 January or 31 December lands there, in the
+    # neighbouring UTC year): the crate against the specification only (glibc is not a reference this close to New Year), and the
+    # instant -> local time -> search round trip, which must hold whatever the clock is
+    ny = gens.days_from_civil(rng.randint(1971, 2400), 1, 1) * 86400
+    for k in range(-26, 27):
+        yield {"op": "lookup", "a": {"u": W(ny + 3600 * k), "via": "owned"}}
+        if k % 4 == 0:
+            yield {"op": "roundtrip", "a": {"u": W(ny + 3600 * k + rng.choice([-1, 0, 1])), "ns": 0}}
+    for _ in range(6):
+        yield {"op": "roundtrip", "a": {"u": W(gens.days_from_civil(rng.randint(1971, 2400), rng.randint(1, 12), rng.randint(1, 28)) * 86400 + rng.randint(0, 86399)), "ns": 0}}
     # the rule's own transitions in one year, to the second: lookups and searches (both forms) against glibc
     y0 = rng.randint(1971, 2400)
     t0 = gens.days_from_civil(y0, 1, 1) * 86400
